@@ -6,7 +6,7 @@ VARIABLES s, depth, hist
 vars == <<s, depth, hist>>
 Objs == 1..Len(s.objs)
 Events == [op : {"update"}, obj : Objs, n : SegLens]
-          \cup (IF Final = "digest" THEN [op : {"digest", "hexdigest"}, obj : Objs] ELSE [op : {"read"}, obj : Objs, n : SegLens \ {0}])
+          \cup (IF Final = "digest" THEN [op : {"digest", "hexdigest"}, obj : Objs] ELSE [op : {"read"}, obj : Objs, n : SegLens])
           \cup (IF HasVerify THEN [op : {"verify", "hexverify"}, obj : Objs, good : BOOLEAN] ELSE {})
           \cup (IF HasCopy /\ Len(s.objs) < MaxObjs THEN [op : {"copy"}, obj : Objs] ELSE {})
 Init == s = HInit /\ depth = 0 /\ hist = <<>>
